@@ -34,7 +34,7 @@ PROPS = {
         "trusted": ["known findings: returns-commodity-filter-counts-filtered-flows, returns-meaningless-when-start-value-plus-inflow-vanishes, returns-meaningless-when-start-value-is-rounding-residue"],
     },
     "C16": {
-        "lean": ["Knut.Properties.C16", "Knut.FactsAgree.TransProcess", "Knut.FactsAgree.TransJPrinter", "Knut.FactsAgree.TransJPrinter2", "Knut.FactsAgree.TransBeancount"],
+        "lean": ["Knut.Properties.C16", "Knut.FactsAgree.TransProcess", "Knut.FactsAgree.TransJPrinter", "Knut.FactsAgree.TransJPrinter2", "Knut.FactsAgree.TransBeancount", "Knut.Properties.C16Go"],
         "level": "proof",
         "claim": "PARTIAL proof (one clause is false on the code and recorded as known finding) + byte-exact correspondence. Lean theorems over the model of `knut transcode -v V` "
                  "(Sort, ComputePrices, check, Valuate with daily value adjustments, then beancount.Transcode as an entry list and its text), for ALL journals and valuation commodities on which "
@@ -201,7 +201,7 @@ PROPS = {
         "assumptions": ["no account/commodity filter and no level-0 mapping in this check's flag vectors (the property's own proviso)"],
     },
     "C04": {
-        "lean": ["Knut.Properties.C04", "Knut.FactsAgree.TransCheck"],
+        "lean": ["Knut.Properties.C04", "Knut.FactsAgree.TransCheck", "Knut.Properties.C04Go"],
         "level": "proof",
         "claim": "Refinement theorem C04_refines: on every list of days the model of the checker processor (maps with deletion on close, as in check.go) and the "
                  "lifecycle specification (open set + log of A/L postings; running quantity = sum over the log) give the same verdict and, on rejection, name the same "
@@ -379,7 +379,7 @@ PROPS = {
         "timeout": {"quick": 1200, "thorough": 5400},
     },
     "C17": {
-        "lean": ["Knut.Properties.C17", "Knut.FactsAgree.TransTable", "Knut.FactsAgree.TransRender", "Knut.FactsAgree.TransRenderVals"],
+        "lean": ["Knut.Properties.C17", "Knut.FactsAgree.TransTable", "Knut.FactsAgree.TransRender", "Knut.FactsAgree.TransRenderVals", "Knut.Properties.C17Go"],
         "level": "proof",
         "claim": "Lean theorems over the model of lib/common/table (TextRenderer.Render incl. both width passes and the panic outcomes, numToString, addThousandsSep, "
                  "CSVRenderer.Render with encoding/csv quoting), for all tables whose rows have a common number n>=1 of cells with non-negative indents and no line breaks, "
